@@ -861,7 +861,7 @@ Qed.
 Lemma remove_dir_entry_cohX : forall s dids parent nm s' u,
   DirCohX [] s dids -> remove_dir_entry parent nm s = (s', Ok u) -> DirCohX [] s' dids.
 Proof.
-  intros s dids parent nm s' u HC H. unfold remove_dir_entry in H.
+  intros s dids parent nm s' u HC H. apply DirProofs.remove_dir_entry_ok_inv in H. unfold remove_dir_entry_inner in H.
   binv H p s1 H1 H2. apply dir_entry_inv in H1. destruct H1 as [-> Hp].
   binv H2 s0 s1 H1 H2. apply get_inv in H1. destruct H1 as [-> ->].
   binv H2 path s1 H1 H2. apply lift_inv in H1. destruct H1 as [-> _].
